@@ -102,6 +102,8 @@ def plan (A : Arch) (m : Module) (rel : Nat) (_first : Bool) : Plan A.Rule :=
       match eh with
       | none => .staticErr                        -- `NoDwarfData`
       | some fdes =>
+        if U64 ≤ m.baseSvma + rel then .staticErr  -- `base_svma.checked_add(rel)` fails
+        else
         match fdes.find? (fun p => p.1 = fdeOff) with
         | none => .staticErr                      -- `FdeFromOffsetFailed`
         | some (_, fde) => planForFde A fde (m.baseSvma + rel)
